@@ -24,7 +24,7 @@ fn p_write_all(ch: &mut dyn Chooser, c: &mut Case) {
     }
 }
 
-fn write_all(c: &Case, ck: &mut Ck<'_>) {
+fn write_all(c: &Case, ck: &mut Ck) {
     let src = payload(c.n, if c.aux == 2 { 2 } else { 0 });
     let mut w = SW(writer(c, false));
     let (res, back): (_, Vec<u8>) = match c.aux {
@@ -84,7 +84,7 @@ fn src_members(c: &Case, src: &[u8]) -> Vec<Vec<u8>> {
     ms
 }
 
-fn wva<W: Dst, V: VShape>(c: &Case, ck: &mut Ck<'_>) {
+fn wva<W: Dst, V: VShape>(c: &Case, ck: &mut Ck) {
     let src = payload(c.n, 0);
     let ms = src_members(c, &src);
     let mut w = W::make(writer(c, false));
@@ -96,7 +96,7 @@ fn wva<W: Dst, V: VShape>(c: &Case, ck: &mut Ck<'_>) {
     }
 }
 
-fn write_vectored_all(c: &Case, ck: &mut Ck<'_>) {
+fn write_vectored_all(c: &Case, ck: &mut Ck) {
     if c.native {
         ck.tag("native");
     }
@@ -126,7 +126,7 @@ fn p_wat(ch: &mut dyn Chooser, c: &mut Case) {
     }
 }
 
-fn write_all_at(c: &Case, ck: &mut Ck<'_>) {
+fn write_all_at(c: &Case, ck: &mut Ck) {
     let src = payload(c.n, 0);
     let store = marks(c.pre);
     if c.pos as usize > c.pre {
@@ -192,7 +192,7 @@ fn wfaults(log: &[Ev]) -> Vec<ErrorKind> {
         .collect()
 }
 
-fn bufwriter(c: &Case, ck: &mut Ck<'_>) {
+fn bufwriter(c: &Case, ck: &mut Ck) {
     if c.cap == 0 {
         ck.tag("bufcap0");
     }
@@ -292,17 +292,23 @@ fn bufwriter(c: &Case, ck: &mut Ck<'_>) {
     if !stopped && core.accepted.len() != src.len() {
         ck.fail("silent-truncation", format!("all writes and flush succeeded, {} of {} bytes reached the inner writer", core.accepted.len(), src.len()));
     }
-    // errors: every non-Interrupted failure of the inner writer surfaces once;
-    // the caller never sees a failure the inner writer did not produce
+    // errors: the caller never sees a failure the inner writer did not produce,
+    // and none twice (caller-visible hard errors are an order-preserving
+    // subsequence of the inner writer's hard failures). A transient failure of
+    // an opportunistic flush that a later write/flush repeats successfully need
+    // not be reported: no documentation promises that, and nothing is lost
+    // (completeness and exactly-once are checked above).
     let inner: Vec<ErrorKind> = wfaults(&core.tape.log);
     let hard = |v: &[ErrorKind]| v.iter().copied().filter(|k| *k != ErrorKind::Interrupted).collect::<Vec<_>>();
     let (hi, hs) = (hard(&inner), hard(&seen));
-    if c.cap > 0 {
-        if hi != hs {
-            ck.fail("error-sequence-mismatch", format!("inner writer failed with {inner:?}, caller saw {seen:?}"));
-        }
-    } else if hs.iter().any(|k| *k != ErrorKind::WriteZero && !hi.contains(k)) {
+    let mut it = hi.iter();
+    let subseq = hs.iter().all(|k| (c.cap == 0 && *k == ErrorKind::WriteZero) || it.any(|x| x == k));
+    if !subseq {
         ck.fail("error-sequence-mismatch", format!("inner writer failed with {inner:?}, caller saw {seen:?}"));
+    }
+    // a failure that was never followed by a successful inner write cannot have been hidden
+    if matches!(core.tape.log.iter().rev().find(|e| **e != Ev::ZeroCap), Some(Ev::Err(_) | Ev::Zero)) && hs.is_empty() {
+        ck.fail("error-swallowed", format!("inner writer's last call failed ({:?}) and the caller saw no error", core.tape.log));
     }
 }
 
@@ -320,7 +326,7 @@ fn p_copy(ch: &mut dyn Chooser, c: &mut Case) {
     c.cap = pick(ch, &uniq(vec![0, 1, 2, c.n.saturating_sub(1), c.n, c.n + 1, 8192]));
 }
 
-fn copy(c: &Case, ck: &mut Ck<'_>) {
+fn copy(c: &Case, ck: &mut Ck) {
     if c.cap == 0 {
         ck.tag("bufsize0");
     }
@@ -379,12 +385,9 @@ pub fn register(v: &mut Vec<Helper>) {
             run,
         })
     };
-    add("write_all", 1, p_write_all as fn(&mut dyn Chooser, &mut Case), write_all as fn(&Case, &mut Ck<'_>));
+    add("write_all", 1, p_write_all as fn(&mut dyn Chooser, &mut Case), write_all as fn(&Case, &mut Ck));
     add("write_vectored_all", 1, p_wva, write_vectored_all);
     add("write_all_at", 1, p_wat, write_all_at);
     add("bufwriter", 1, p_bufwriter, bufwriter);
     add("copy", 3, p_copy, copy);
 }
-
-#[allow(dead_code)]
-fn _unused<W: AsyncWrite>(_: W) {}
